@@ -15,6 +15,8 @@ DEFAULT_W = dict(
     scope=0.10,
     invoke=0.30,
     obj_param=0.45,      # a parameter is a dig.In object
+    loc=0.03,            # Provide carries dig.LocationForPC
+    embed=0.04,          # an object embeds further structs (plain ones, or dig.In / dig.Out indirectly)
     obj_result=0.30,     # a result is a dig.Out object
     group=0.30,          # use of value groups
     optional=0.25,
@@ -32,6 +34,7 @@ DEFAULT_W = dict(
     web=0.04,            # a small web of feeders / consumers / decorators around one value group
     late=0.04,           # a dependency that is missing at the first Invoke and provided before the retry
     retry=0.04,          # a constructor / decorator scripted to fail first and succeed on the retry
+    deepcycle=0.03,      # a dependency cycle that only a (grand)child scope can see, closed from an ancestor
 )
 
 
@@ -174,6 +177,25 @@ class Gen:
             # sometimes put In last / in the middle
             if r.random() < 0.2:
                 fs = fs[1:] + fs[:1]
+            if self.p("embed"):
+                e = r.random()
+                if e < 0.5:
+                    # an ordinary struct embedded next to dig.In (before it, half of the time): a plain dependency
+                    tg = {"optional": "true"} if r.random() < 0.5 else {}
+                    pos = 0 if r.random() < 0.5 else r.randrange(0, len(fs) + 1)
+                    fs.insert(pos, self.field("S0", u(19), tg, anon=True))
+                elif e < 0.8:
+                    # dig.In embedded indirectly, through an embedded struct that embeds it
+                    (t, nm) = self.gen_single_param(level, scope)
+                    base = self.st([self.in_field(), self.field("B1", u(t), {"name": nm} if nm else {})])
+                    i = [j for j, f in enumerate(fs) if f["anon"] and f["t"].get("u") == 1][0]
+                    fs[i] = self.field("Base", base, anon=True)
+                    if r.random() < 0.3:
+                        fs.insert(0, self.field("S0", u(19), {"optional": "true"}, anon=True))
+                else:
+                    # an embedded composite struct that does not embed dig.In
+                    plain = self.st([self.field("X", u(r.choice(PT)))])
+                    fs.insert(r.randrange(0, len(fs) + 1), self.field("Plain", plain, {"optional": "true"}, anon=True))
             return self.st(fs)
 
         for _ in range(n):
@@ -212,6 +234,15 @@ class Gen:
                 else:
                     nm = self.pick_name()
                     fs.append(self.field("R%d" % j, u(t), {"name": nm} if nm else {}))
+            if self.p("embed"):
+                e = r.random()
+                if e < 0.6:
+                    fs.insert(0 if r.random() < 0.5 else r.randrange(0, len(fs) + 1), self.field("S0", u(19), anon=True))
+                else:
+                    base = self.st([self.out_field(), self.field("B1", u(self.pick_type(None)))])
+                    fs[0] = self.field("Base", base, anon=True)
+                    if r.random() < 0.3:
+                        fs.insert(0, self.field("S0", u(19), anon=True))
             outs.append(self.st(fs))
             if self.p("as_") and r.random() < 0.3:
                 opts["as"] = [{"iface": 22}]
@@ -445,10 +476,24 @@ class Gen:
             outs = self.fns[fid - 1]["out"]
             opts = {"name": "", "group": r.choice(["g,flatten", "g"]), "as": [{"iface": 20}], "opts": ["group", "as"]}
         export = self.p("export")
+        exports = None
         if export:
             opts["opts"] = list(opts["opts"]) + ["export"]
+        if r.random() < 0.06:
+            # the option given several times: the last one counts
+            exports = [r.random() < 0.5 for _ in range(r.choice([2, 2, 3]))]
+            export = exports[-1]
+            opts["opts"] = list(set(opts["opts"]) | {"export"})
         op = {"op": "provide", "scope": scope, "fn": fid, "name": opts["name"], "group": opts["group"], "as": opts["as"],
               "export": export, "cb": self.p("cb"), "info": r.random() < 0.7, "opts": sorted(set(opts["opts"]))}
+        if exports:
+            op["exports"] = exports
+        if self.p("loc"):
+            # dig.LocationForPC: the constructor is reported under another function's location
+            cands = [f["id"] for f in self.fns if "nonfunc" not in f]
+            if cands:
+                op["loc"] = r.choice(cands)
+                op["opts"] = sorted(set(op["opts"]) | {"loc"})
         self.ops.append(op)
         self.record_results(scope, outs, opts, export, deps_ok=self._deps_ok and "nonfunc" not in self.fns[fid - 1])
         # occasionally provide the very same function again (same or other scope)
@@ -697,6 +742,45 @@ class Gen:
         for _ in range(r.choice([1, 2])):
             self.ops.append({"op": "invoke", "scope": sc if r.random() < 0.8 else r.choice(path), "fn": cons, "info": False})
 
+    # ---- a cycle that is visible only from a descendant scope, closed by a Provide to an ancestor
+    def op_deep_cycle(self):
+        r = self.r
+        # a chain of scopes root -> ... -> leaf, some of them created now, with unrelated operations in between
+        top = r.randrange(0, self.nscopes)
+        chain = [top]
+        for _ in range(r.choice([1, 2, 2, 3])):
+            if self.nscopes >= self.w["max_scopes"] + 2:
+                break
+            if r.random() < 0.6:
+                # something happens in an ancestor before the next scope exists (caches of subtree lists, flags ...)
+                if r.random() < 0.5:
+                    self.plain_provide(r.choice(chain), [], *self.fresh_key())
+                else:
+                    f0 = self.new_fn([], [])
+                    self.ops.append({"op": "invoke", "scope": r.choice(chain), "fn": f0, "info": False})
+            self.ops.append({"op": "scope", "parent": chain[-1]})
+            self.parents.append(chain[-1])
+            chain.append(self.nscopes)
+            self.nscopes += 1
+        if len(chain) < 2:
+            return
+        (xt, xn) = self.fresh_key(); self.provided.append((chain[-1], xt, xn))
+        (yt, yn) = self.fresh_key(); self.provided.append((chain[0], yt, yn))
+        low = r.choice(chain[1:])                     # the private half of the cycle lives here
+        high = r.choice(chain[:chain.index(low)])     # the other half is provided above it
+        opt = r.random() < 0.2
+        first, second = ((low, xt, xn, yt, yn), (high, yt, yn, xt, xn))
+        if r.random() < 0.3:
+            first, second = second, first
+        for (sc, t, n, dt, dn) in (first, second):
+            self.plain_provide(sc, [self.single_in(dt, dn, optional=opt)], t, n, export=(sc == low and r.random() < 0.1))
+            if r.random() < 0.2:
+                self.op_provide()
+        cons = self.new_fn([self.single_in(xt, xn)], [])
+        self.invokers.append((cons, chain[-1]))
+        for sc in r.sample(chain, min(len(chain), 2)):
+            self.ops.append({"op": "invoke", "scope": sc, "fn": cons, "info": False})
+
     def op_invoke(self):
         r = self.r
         scope = r.randrange(0, self.nscopes)
@@ -742,6 +826,9 @@ class Gen:
                 continue
             if r.random() < self.w["late"]:
                 self.op_late_dep()
+                continue
+            if r.random() < self.w["deepcycle"]:
+                self.op_deep_cycle()
                 continue
             if r.random() < self.w["retry"]:
                 self.op_retry_web()
@@ -801,6 +888,16 @@ def generate_reentrant(seed, w=None):
             behs = p["script"].setdefault(str(f), [{"k": "ok", "len": 1, "dt": 0, "eslot": 0}])
             (s_, fn_) = r.choice(invs)
             behs[0] = dict(behs[0], re={"scope": s_, "fn": fn_})
+    # callbacks that panic: an operation's callback panics on its first (sometimes second) call
+    for o in p["ops"]:
+        if o["op"] in ("provide", "decorate") and o.get("cb") and r.random() < 0.25:
+            o["cbpanic"] = r.choice([1, 1, 2])
+    if not any(o.get("cbpanic") for o in p["ops"]):
+        cands = [o for o in p["ops"] if o["op"] in ("provide", "decorate") and uses.get(o["fn"]) == 1]
+        if cands and r.random() < 0.5:
+            o = r.choice(cands)
+            o["cb"] = True
+            o["cbpanic"] = 1
     p["reentrant"] = True
     p["cfg"]["dry"] = False
     return p
